@@ -11,6 +11,22 @@ CLAIMED = {
    note="trusted: value embeddings/projections (gbverif/abstract.py), TLC; bounds: rows<=7, 2-3 groups on the spec, rows<=6 on the code",
    technique="TLA+ spec GBReduce model-checked with TLC + batch trace validation (Trace_GBReduce) of real kernel calls",
    ref="DESIGN.md section 6/C04"),
+ "C01": dict(
+   text="TLC checks the GroupBy reduction pipeline model (GBCore: factorization row by row, kernel step per selected row, "
+        "observed filter, ordering) against the per-group definition computed from the input history in every state; every "
+        "recorded real GroupBy.<reduction> call (all inputs up to length 3/4 x 8 reductions, key/value dtype covering draws, "
+        "mask kinds) is replayed through the same actions and accepted only if labels and values equal the machine's.",
+   note="trusted: pandas result projection and encoders (gbverif/drivers/api.py, abstract.py), TLC; bounds: rows<=5 on the spec, rows<=40 on the code",
+   technique="TLA+ spec GBCore model-checked with TLC + batch trace validation (Trace_GBCore) of real GroupBy calls",
+   ref="DESIGN.md section 6/C01"),
+ "C02": dict(
+   text="TLC explores every factorization route as a state machine (GBFactorize: plain dictionary, mixed-radix multi-key, "
+        "monotone prefix scan, chunk tasks finishing in any order, pointer tables, unification) over all key arrays within the "
+        "bounds and checks the faithful-partition relation P1-P4; every recorded real factorization (factorize_1d/2d, GroupBy "
+        "codes, groups, key_count over dtype x container x route) is validated by TLC against the same relation (P1-P5).",
+   note="trusted: code/label projection (gbverif/drivers/factorize.py); bounds: rows<=7 x 3 labels on the spec, rows<=12 on the code; thresholds scaled down via core.THRESHOLD_FOR_CHUNKED_FACTORIZE",
+   technique="TLA+ spec GBFactorize model-checked with TLC + trace validation (Trace_GBFactorize) of real factorizations",
+   ref="DESIGN.md section 6/C02"),
 }
 REASONS = {}
 props = [json.loads(l) for l in open("/verif/properties.jsonl")]
